@@ -813,3 +813,48 @@ func GetDynamicValueT(
 
 	return evaluatedObjectT
 }
+
+// SetMethodVisibility gives a method the class has already defined another
+// visibility ('private :name' after the definition).
+func SetMethodVisibility(
+	frame string,
+	class string,
+	method string,
+	isStatic bool,
+	isPrivate bool,
+	isProtected bool,
+) {
+
+	makeKey := methodTFrameKey
+	if isStatic {
+		makeKey = classMethodTFrameKey
+	}
+
+	for _, wasPrivate := range []bool{false, true} {
+		key := makeKey(frame, class, method, wasPrivate)
+
+		methodT, ok := TFrame[key]
+		if !ok {
+			continue
+		}
+
+		delete(TFrame, key)
+		methodT.IsProtected = isProtected
+		TFrame[makeKey(frame, class, method, isPrivate)] = methodT
+
+		for i := len(TSignatureArticles) - 1; i >= 0; i-- {
+			article := &TSignatureArticles[i]
+
+			if article.Frame == frame && article.Class == class &&
+				article.IsStatic == isStatic && article.MethodT.GetMethodName() == method {
+
+				article.IsPrivate = isPrivate
+				article.MethodT.IsProtected = isProtected
+
+				break
+			}
+		}
+
+		return
+	}
+}
